@@ -64,6 +64,9 @@ def _fn_refs(x):
                 yield from _fn_refs(v)
 
 
+_CANONICAL_KEYS = ('callee', 'resolved', 'fn', 'path', 'def_path', 'closure', 'adt', 'callee_trait', 'name', 'variant', 'k', 'ak', 'op', 'ck')
+
+
 def _subst_generics(obj, pairs):
     """replace the callee's generic parameter names by the call's generic arguments in every string of obj"""
     if isinstance(obj, str):
@@ -74,7 +77,8 @@ def _subst_generics(obj, pairs):
     if isinstance(obj, list):
         return [_subst_generics(x, pairs) for x in obj]
     if isinstance(obj, dict):
-        return {k: _subst_generics(v, pairs) for k, v in obj.items()}
+        # canonical item paths (`Shared::<T>::update`) name the item, not an instantiation: left alone
+        return {k: (v if k in _CANONICAL_KEYS and isinstance(v, str) else _subst_generics(v, pairs)) for k, v in obj.items()}
     return obj
 
 
@@ -123,6 +127,9 @@ def _inline_call(caller, bi, callee):
         nd = _remap(d, off, 0)
         nd['arg'] = None
         caller.setdefault('debug', []).append(nd)
+
+
+FORCE_INLINE = ('io_uring::op::set_waker',)
 
 
 def _place_nodes(obj):
@@ -248,7 +255,9 @@ def normalise(j):
         present.setdefault(f['path'], []).append(f)
     # trait impl items are reached through the impl table, never treated as extracted helpers
     impl_items = {it['path'] for i in j.get('impls', []) if i.get('trait') for it in i.get('items', [])}
-    new = [f for f in fns if f['path'] not in kpaths and f['kind'] in ('fn', 'assoc') and f['path'] not in impl_items]
+    # small known helpers whose interface refactorings like to change are always analysed in their callers
+    # (`set_waker(&mut shared.waker, ctx.waker())` / `shared.register_waker(..)` / `set_waker(slot, ctx)` read the same)
+    new = [f for f in fns if (f['path'] not in kpaths or f['path'] in FORCE_INLINE) and f['kind'] in ('fn', 'assoc') and f['path'] not in impl_items]
     missing = [k for k in known if k['path'] not in present and k['kind'] in ('fn', 'assoc')]
     # renames
     renamed = {}
@@ -280,7 +289,7 @@ def normalise(j):
                         for n, o in renamed.items():
                             if rv['closure'].startswith(n + '::{closure'):
                                 rv['closure'] = o + rv['closure'][len(n):]
-    new = [f for f in new if 'renamed_from' not in f]
+    new = [f for f in new if 'renamed_from' not in f or f['path'] in FORCE_INLINE]
     newp = {f['path']: f for f in new}
     if not newp:
         return notes + desugar_combinators(j) + inline_local_closure_calls(j)
@@ -292,6 +301,13 @@ def normalise(j):
     inlinable = {p for p, f in newp.items() if not reaches(p, p) and len(f['blocks']) <= MAX_BLOCKS}
     for p in sorted(set(newp) - inlinable):
         notes.append('new helper %s is not inlined (recursive or larger than %d blocks)' % (p, MAX_BLOCKS))
+    # methods of new traits implemented for concrete types (`<i32 as SyscallReturn>::is_failure`): once a generic helper is
+    # instantiated at its call site the method call names the impl item and can be inlined like any other small new helper
+    new_impl = {f['path']: f for f in fns if f['path'] not in kpaths and f['kind'] in ('fn', 'assoc') and f['path'] in impl_items
+                and len(f['blocks']) <= MAX_BLOCKS and f['path'].startswith('<')}
+    known_traits = {m_.group(1) for m_ in (re.search(r' as (.*)>::\w+$', k['path']) for k in known if k['path'].startswith('<')) if m_}
+    new_traits = {t_['path'] for t_ in j.get('traits', [])} - known_traits
+    new_impl = {p_: f_ for p_, f_ in new_impl.items() if any((' as %s>' % tr) in p_ for tr in new_traits)}
     count = {}
     for rnd in range(MAX_ROUNDS):
         did = False
@@ -301,6 +317,13 @@ def normalise(j):
                 t = f['blocks'][bi]['term']
                 if t['k'] == 'call' and not t.get('indirect'):
                     tgt = t.get('resolved') if t.get('resolved') in inlinable else (t.get('callee') if t.get('callee') in inlinable else None)
+                    if tgt is None and t.get('callee_full') in new_impl and t['callee_full'] != f['path'] and len(t['args']) == new_impl[t['callee_full']]['arg_count'] \
+                            and f['path'] not in new_impl:
+                        _inline_call(f, bi, new_impl[t['callee_full']])
+                        count[t['callee_full']] = count.get(t['callee_full'], 0) + 1
+                        did = True
+                        bi += 1
+                        continue
                     if tgt is not None and tgt != f['path'] and len(t['args']) == newp[tgt]['arg_count']:
                         _inline_call(f, bi, newp[tgt])
                         count[tgt] = count.get(tgt, 0) + 1
@@ -450,6 +473,101 @@ def _desugar_take_if(f, blk, t, fns_by_path):
     return True
 
 
+def _desugar_filter(f, blk, t, fns_by_path):
+    """`opt.filter(|v| pred)`: Some(v) is kept when pred(&v) holds; otherwise v is dropped and the result is None"""
+    recv, clo_op = t['args']
+    got = _closure_of(f, clo_op, fns_by_path)
+    if got is None or t.get('target') is None or t['dest']['p']:
+        return False
+    clo_local, g = got
+    if g['arg_count'] != 2 or len(g['blocks']) > MAX_BLOCKS:
+        return False
+    span, dest, target = t.get('span'), t['dest'], t['target']
+    d_ty = dest.get('ty', '')
+    if 'l' in recv and not recv['p']:
+        r_local = recv['l']
+    else:
+        r_local = _new_local(f, recv.get('ty', ''))
+        blk['stmts'].append(_assign(_pl(r_local, recv.get('ty', '')), {'k': 'use', 'op': recv}, span))
+    r_ty = f['locals'][r_local]['ty']
+    env_ty = g['locals'][1]['ty']
+    p_ty = g['locals'][2]['ty']
+    d_local = _new_local(f, 'isize')
+    blk['stmts'].append(_assign(_pl(d_local, 'isize'), {'k': 'discr', 'place': _pl(r_local, r_ty), 'adt': OPT[0], 'variants': OPT[1]}, span))
+    base = len(f['blocks'])
+    some_bb, none_bb, test_bb, keep_bb, drop_bb = base, base + 1, base + 2, base + 3, base + 4
+    res_local = _new_local(f, 'bool')
+    arg_local = _new_local(f, p_ty)
+    payload = [{'k': 'downcast', 'variant': 'Some', 'vidx': 1}, {'k': 'field', 'i': 0, 'ty': '', 'name': '0'}]
+    some = {'cleanup': False, 'stmts': [_assign(_pl(arg_local, p_ty), {'k': 'ref', 'mut': False, 'place': _pl(r_local, '', list(payload))}, span)], 'term': None, 'desugared': 'filter'}
+    if env_ty.startswith('&'):
+        e_local = _new_local(f, env_ty)
+        some['stmts'].append(_assign(_pl(e_local, env_ty), {'k': 'ref', 'mut': env_ty.startswith('&mut'), 'place': _pl(clo_local, f['locals'][clo_local]['ty'])}, span))
+        env_op = _use(e_local, env_ty)
+    else:
+        env_op = _use(clo_local, f['locals'][clo_local]['ty'])
+    some['term'] = {'k': 'call', 'callee': g['path'], 'resolved': g['path'], 'args': [env_op, _use(arg_local, p_ty)], 'dest': _pl(res_local, 'bool'), 'target': test_bb, 'unwind': None, 'span': span}
+    none = {'cleanup': False, 'stmts': [_assign(dest, _agg(OPT[0], 'None', 0, [], d_ty), span)], 'term': {'k': 'goto', 'target': target, 'span': span}, 'desugared': 'filter'}
+    test = {'cleanup': False, 'stmts': [], 'term': {'k': 'switch', 'discr': _use(res_local, 'bool', 'copy'), 'discr_ty': 'bool', 'targets': [['0', drop_bb]], 'otherwise': keep_bb, 'span': span}, 'desugared': 'filter'}
+    keep = {'cleanup': False, 'stmts': [_assign(dest, {'k': 'use', 'op': _use(r_local, r_ty)}, span)], 'term': {'k': 'goto', 'target': target, 'span': span}, 'desugared': 'filter'}
+    drop = {'cleanup': False, 'stmts': [], 'term': {'k': 'drop', 'place': _pl(r_local, '', list(payload)), 'target': none_bb, 'unwind': None, 'span': span}, 'desugared': 'filter'}
+    f['blocks'].extend([some, none, test, keep, drop])
+    blk['term'] = {'k': 'switch', 'discr': _use(d_local, 'isize'), 'discr_ty': 'isize', 'targets': [['1', some_bb]], 'otherwise': none_bb, 'span': span}
+    _inline_call(f, some_bb, g)
+    return True
+
+
+VALUE_COMBINATORS = {
+    'core::bool::<impl bool>::then_some': 'then_some', 'std::primitive::bool::then_some': 'then_some',
+    'std::option::Option::<T>::or': 'opt_or', 'std::option::Option::<T>::unwrap_or': 'opt_unwrap_or',
+    'std::result::Result::<T, E>::unwrap_or': 'res_unwrap_or', 'std::option::Option::<T>::ok_or': 'ok_or',
+}
+
+
+def _desugar_value_combinator(f, blk, t, kind):
+    """combinators without a closure (`b.then_some(v)`, `a.or(b)`, `a.unwrap_or(d)`, `a.ok_or(e)`) written out as the
+    two-way choice they are, so that path- and value-based rules see it"""
+    args = t['args']
+    if len(args) != 2 or t.get('target') is None or t['dest']['p']:
+        return False
+    span, dest, target = t.get('span'), t['dest'], t['target']
+    d_ty = dest.get('ty', '')
+    a, b = args
+    if 'l' in a and not a['p']:
+        a_local = a['l']
+    else:
+        a_local = _new_local(f, a.get('ty', ''))
+        blk['stmts'].append(_assign(_pl(a_local, a.get('ty', '')), {'k': 'use', 'op': a}, span))
+    a_ty = f['locals'][a_local]['ty']
+    base = len(f['blocks'])
+    yes_bb, no_bb = base, base + 1
+
+    def mk(stmts):
+        return {'cleanup': False, 'stmts': stmts, 'term': {'k': 'goto', 'target': target, 'span': span}, 'desugared': kind}
+    if kind == 'then_some':
+        yes = mk([_assign(dest, _agg(OPT[0], 'Some', 1, [b], d_ty), span)])
+        no = mk([_assign(dest, _agg(OPT[0], 'None', 0, [], d_ty), span)])
+        blk['term'] = {'k': 'switch', 'discr': _use(a_local, 'bool', 'copy'), 'discr_ty': 'bool', 'targets': [['0', no_bb]], 'otherwise': yes_bb, 'span': span}
+    else:
+        adt, variants, succ_idx = (RES[0], RES[1], 0) if kind == 'res_unwrap_or' else (OPT[0], OPT[1], 1)
+        vname = dict((int(x), y) for x, y in variants)[succ_idx]
+        d_local = _new_local(f, 'isize')
+        blk['stmts'].append(_assign(_pl(d_local, 'isize'), {'k': 'discr', 'place': _pl(a_local, a_ty), 'adt': adt, 'variants': variants}, span))
+        payload = _use(a_local, '', 'move', [{'k': 'downcast', 'variant': vname, 'vidx': succ_idx}, {'k': 'field', 'i': 0, 'ty': '', 'name': '0'}])
+        if kind == 'opt_or':
+            yes = mk([_assign(dest, {'k': 'use', 'op': _use(a_local, a_ty)}, span)])
+            no = mk([_assign(dest, {'k': 'use', 'op': b}, span)])
+        elif kind in ('opt_unwrap_or', 'res_unwrap_or'):
+            yes = mk([_assign(dest, {'k': 'use', 'op': payload}, span)])
+            no = mk([_assign(dest, {'k': 'use', 'op': b}, span)])
+        else:  # ok_or
+            yes = mk([_assign(dest, _agg(RES[0], 'Ok', 0, [payload], d_ty), span)])
+            no = mk([_assign(dest, _agg(RES[0], 'Err', 1, [b], d_ty), span)])
+        blk['term'] = {'k': 'switch', 'discr': _use(d_local, 'isize'), 'discr_ty': 'isize', 'targets': [[str(succ_idx), yes_bb]], 'otherwise': no_bb, 'span': span}
+    f['blocks'].extend([yes, no])
+    return True
+
+
 def desugar_combinators(j):
     notes = []
     fns_by_path = {}
@@ -463,6 +581,15 @@ def desugar_combinators(j):
             t = blk['term']
             bi += 1
             if t['k'] != 'call' or blk.get('cleanup') or t.get('target') is None or t['dest']['p']:
+                continue
+            if (t.get('callee') or '') == 'std::option::Option::<T>::filter' and len(t['args']) == 2:
+                if _desugar_filter(f, blk, t, fns_by_path):
+                    count['filter'] = count.get('filter', 0) + 1
+                continue
+            vk = VALUE_COMBINATORS.get(t.get('callee') or '')
+            if vk is not None:
+                if _desugar_value_combinator(f, blk, t, vk):
+                    count[vk] = count.get(vk, 0) + 1
                 continue
             if (t.get('callee') or '') == 'std::option::Option::<T>::take_if' and len(t['args']) == 2:
                 if _desugar_take_if(f, blk, t, fns_by_path):
